@@ -5,7 +5,7 @@ def _E(n, q, t, r=("accepted", "rejected"), se=23):
     return (dict(name=n, bounds=q + _B, reach=list(r), sample_every=se, jobs=1), dict(name=n, bounds=t + _B, reach=list(r), sample_every=se * 7, jobs=1))
 _FAM = [
     _E("c30_e_host", "'http://' b b '.a/' | 'http://A' b b '/x' | 'http://B' b '.a/' with check_hostnames in {off,on}" + _M,
-                     "'http://' b b b '.a/' | 'http://A' b b b '/x' | 'http://B' b b with check_hostnames in {off,on}" + _M, ("accepted", "rejected", "empty-host", "bracketed-name")),
+                     "'http://' b b b '.a/' | 'http://A' b b '/x' | 'http://B' b '.a/' with check_hostnames in {off,on}" + _M, ("accepted", "rejected", "bracketed-name")),
     _E("c30_e_port", "'https://h.a:' b b '/' | 'http://h.a:6553' b '/' | 'http://h.a:42949673' b b '/'" + _M,
                      "'https://h.a:' b b '/' | 'http://h.a:655' b b '/' | 'http://h.a:42949673' b b '/'" + _M),
     _E("c30_e_port_end", "'http://h.a:8' b b" + _M, "'http://h.a:8' b b" + _M),
@@ -14,25 +14,26 @@ _FAM = [
     _E("c30_e_scheme_method", "scheme in {http,https,ftp,coap,coaps,wais,whois,HtTp,foo} '://h' [':8'] b" + _M + " | 'http://h.a' b with method any of the 41 non-CONNECT methods",
                               "scheme in {http,https,ftp,coap,coaps,wais,whois,HtTp,foo} '://h' [':8'] b" + _M + " | 'http://h.a' b with method any of the 41 non-CONNECT methods"),
     _E("c30_e_path", "'http://h.a/' b b" + _M, "'http://h.a/' b b" + _M, ("accepted", "encoded-path")),
-    _E("c30_e_any", "'http://' b b" + _M, "'http://' b b b" + _M, ("accepted", "rejected", "empty-host", "bracketed-name", "encoded-path")),
+    _E("c30_e_any", "'http://' b b" + _M, "'http://' b b b" + _M, ("accepted", "rejected", "bracketed-name", "encoded-path")),
     _E("c30_e_connect", "CONNECT b b '.a:443' | 'h.a:' b b b | 'h.a:6553' b | '[fc00::' b ']' b '443'; check_hostnames off",
                         "CONNECT b b b '.a:443' | 'h.a:' b b b b | 'h.a:655' b b | '[fc00::' b b ']' b '44' b; check_hostnames off"),
-    _E("c30_e_connect_any", "CONNECT b b b b; check_hostnames off", "CONNECT b b b b b; check_hostnames off", ("accepted", "rejected", "empty-host")),
+    _E("c30_e_connect_any", "CONNECT b b b b; check_hostnames off", "CONNECT b b b b b; check_hostnames off", ("accepted", "rejected")),
+]
+_KNOWN = [
+    dict(name="c30_known_bracketed_names", known=True, jobs=1, reach=[], max_samples=0, sample_every=0, bounds="KNOWN FINDING C30-bracketed-names only: the 'http://[fc00::' b ']' b '8/' family restricted to accepted URIs whose '['-prefixed host is not an IP address; violations are listed in known_findings.json and printed as KNOWN-FINDING"),
+    dict(name="c30_known_encoded_path", known=True, jobs=1, reach=[], max_samples=0, sample_every=0, bounds="KNOWN FINDING C30-path-reencoded only: 'http://h.a/' b b restricted to paths with a byte outside pchar and '/', with the literal 'same path' assertion; violations are listed in known_findings.json and printed as KNOWN-FINDING"),
 ]
 SPEC = dict(
     harness="C30_uri.cc",
-    # C30_ATOI_PORTS=1 / C30_EMPTY_HOST=1 / C30_BRACKETED_NAMES=1 drop the KNOWN-FINDING assumptions to show the counterexamples
-    defines=(["C30_INCLUDE_ATOI_PORTS=1"] if _os.environ.get("C30_ATOI_PORTS") else []) + (["C30_INCLUDE_EMPTY_HOST=1"] if _os.environ.get("C30_EMPTY_HOST") else []) + (["C30_INCLUDE_BRACKETED_NAMES=1"] if _os.environ.get("C30_BRACKETED_NAMES") else []),
     units=TOK + ["src/anyp/Uri.cc", "src/anyp/UriScheme.cc", "src/anyp/ProtocolType.cc", "src/ip/Address.cc", "src/SquidConfig.cc", "src/helper/ChildConfig.cc",
                  "src/http/RequestMethod.cc", "src/http/MethodType.cc", "src/String.cc", "lib/rfc1738.cc", "compat/xstring.cc"],
     unit_flags={"compat/xstring.cc": ["-Dxstrdup=vf_unused_xstrdup"]},   # xstrdup comes from the engine/native allocation layer
-    entries=dict(quick=[f[0] for f in _FAM], thorough=[f[1] for f in _FAM]),
+    entries=dict(quick=[f[0] for f in _FAM] + _KNOWN, thorough=[f[1] for f in _FAM] + _KNOWN),
     timeout=dict(quick=400, thorough=1500),
     stubs=["getaddrinfo/freeaddrinfo/inet_ntop: numeric-only models in harness/C30_netmodel.h (glibc inet_aton/inet_pton/inet_ntop text rules, no %scope, no dotted quad inside IPv6); native replay uses the real libc",
            "SquidConfig Config is the real global, zero-initialised (= squid.conf defaults for uri_whitespace strip, no append_domain), check_hostnames symbolic",
            "compat/xstring.cc is linked for xstrncpy with its xstrdup renamed (xstrdup comes from the allocation layer)", "libc atoi/strtol/strchr/strrchr/strstr/strspn models", "debugs() disabled"],
-    outside="URIs other than the listed skeleton families; urn: and the OPTIONS/TRACE '*' form (no authority); append_domain; uri_whitespace other than strip; AnyP::Uri::parsedHost()/AnyP::Host (src/anyp/Host.cc) are not exercised; ports with a sign, trailing garbage or a value outside 1..65535 in non-CONNECT URIs empty hosts and '['-prefixed non-IP host names (KNOWN-FINDING candidates, excluded by assumptions); 'same path' after re-parsing is asserted literally only for paths made of pchar and '/', otherwise against the percent-encoded canonical path (KNOWN-FINDING candidate)",
-    assumptions=["non-CONNECT URIs: the port text is empty, or all digits with a value in 1..65535 (other port texts: KNOWN-FINDING candidate, atoi leniency)",
-                 "accepted URIs whose host is empty are not examined further (KNOWN-FINDING candidate: 'http://./x', 'http://:80/', CONNECT '.:443')",
-                 "accepted URIs whose host is a '['-prefixed non-IP name are not examined further (KNOWN-FINDING candidate: brackets stripped without validation)"],
+    outside="URIs other than the listed skeleton families; urn: and the OPTIONS/TRACE '*' form (no authority); append_domain; uri_whitespace other than strip; AnyP::Uri::parsedHost()/AnyP::Host (src/anyp/Host.cc) are not exercised",
+    assumptions=["known finding C30-bracketed-names: accepted URIs whose host is a '['-prefixed non-IP name are examined only by c30_known_bracketed_names",
+                 "known finding C30-path-reencoded: for paths with a byte outside pchar and '/', the ordinary entries assert stability of the canonical (percent-encoded) path; the literal 'same path' assertion is made by c30_known_encoded_path"],
 )
